@@ -59,6 +59,13 @@ def run(tier, seed):
         items.append((name + '|O0', src, ['-O0'] + a))
         for v in ([['-O3']] if quick else [['-O1'], ['-O2'], ['-O3']]):
             items.append((name + '|' + ' '.join(v), src, v + a))
+    # rejoining alternatives with identical pending actions, under the level and under the two DFA passes switched on alone
+    for i in range(8 if quick else 40):
+        sd = rng.randrange(1 << 30)
+        src = genprog.gen_optcase_program(sd)[1]
+        items.append(('optcase:%d|O0' % sd, src, ['-O0']))
+        for v in (['-O3'], ['-O0', '-fsimplify-else-conditions', '-fshortcircuit-fallthroughs'], ['-O1']):
+            items.append(('optcase:%d|%s' % (sd, ' '.join(v)), src, v))
     progs = runner.compile_programs(items, want=('machine', 'codegen'))
     by_src = collections.OrderedDict()
     for p in progs:
